@@ -85,8 +85,31 @@ UniversalString_constraint(const asn_TYPE_descriptor_t *td, const void *sptr,
     return 0;
 }
 
+/*
+ * Pass a piece of UTF-8 text on: as it is (print), or with the characters
+ * XML reserves written the way the other UTF-8 based string types
+ * write them (XER): &lt; &gt; &amp; and the X.680 control character elements.
+ * The escaping works octet by octet on the octets below 0x80,
+ * so cutting the text into pieces is harmless.
+ */
 static ssize_t
-UniversalString__dump(const UniversalString_t *st,
+UniversalString__out(const asn_TYPE_descriptor_t *xer_td, const char *buf, size_t size,
+		asn_app_consume_bytes_f *cb, void *app_key) {
+	if(xer_td) {
+		OCTET_STRING_t os;
+		asn_enc_rval_t er;
+		memset(&os, 0, sizeof(os));
+		os.buf = (uint8_t *)buf;
+		os.size = size;
+		er = OCTET_STRING_encode_xer_utf8(xer_td, &os, 0, XER_F_BASIC,
+			cb, app_key);
+		return er.encoded;
+	}
+	return (cb(buf, size, app_key) < 0) ? -1 : (ssize_t)size;
+}
+
+static ssize_t
+UniversalString__dump(const UniversalString_t *st, const asn_TYPE_descriptor_t *xer_td,
 		asn_app_consume_bytes_f *cb, void *app_key) {
 	char scratch[128];			/* Scratchpad buffer */
 	char *p = scratch;
@@ -102,9 +125,10 @@ UniversalString__dump(const UniversalString_t *st,
 				| ((uint32_t)ch[2] << 8)
 				|  ch[3];	/* 4 bytes */
 		if(sizeof(scratch) - (p - scratch) < 6) {
-			wrote += p - scratch;
-			if(cb(scratch, p - scratch, app_key) < 0)
-				return -1;
+			ssize_t n = UniversalString__out(xer_td, scratch, p - scratch,
+				cb, app_key);
+			if(n < 0) return -1;
+			wrote += n;
 			p = scratch;
 		}
 		if(wc < 0x80) {
@@ -137,9 +161,11 @@ UniversalString__dump(const UniversalString_t *st,
 		}
 	}
 
-	wrote += p - scratch;
-	if(cb(scratch, p - scratch, app_key) < 0)
-		return -1;
+	{
+		ssize_t n = UniversalString__out(xer_td, scratch, p - scratch, cb, app_key);
+		if(n < 0) return -1;
+		wrote += n;
+	}
 
 	return wrote;
 }
@@ -215,7 +241,7 @@ UniversalString_encode_xer(const asn_TYPE_descriptor_t *td, const void *sptr,
 	if(!st || !st->buf)
 		ASN__ENCODE_FAILED;
 
-	er.encoded = UniversalString__dump(st, cb, app_key);
+	er.encoded = UniversalString__dump(st, td, cb, app_key);
 	if(er.encoded < 0) ASN__ENCODE_FAILED;
 
 	ASN__ENCODED_OK(er);
@@ -231,7 +257,7 @@ UniversalString_print(const asn_TYPE_descriptor_t *td, const void *sptr,
 
 	if(!st || !st->buf) return (cb("<absent>", 8, app_key) < 0) ? -1 : 0;
 
-	if(UniversalString__dump(st, cb, app_key) < 0)
+	if(UniversalString__dump(st, 0, cb, app_key) < 0)
 		return -1;
 
 	return 0;
